@@ -15,6 +15,7 @@ import (
 	"github.com/ava-labs/avalanchego/snow/engine/snowman/block"
 	"github.com/ava-labs/avalanchego/trace"
 	"github.com/ava-labs/avalanchego/utils/logging"
+	"github.com/ava-labs/avalanchego/utils/set"
 	"github.com/ava-labs/avalanchego/x/merkledb"
 	"github.com/prometheus/client_golang/prometheus"
 
@@ -23,6 +24,7 @@ import (
 	"github.com/ava-labs/hypersdk/codec"
 	"github.com/ava-labs/hypersdk/fees"
 	"github.com/ava-labs/hypersdk/genesis"
+	"github.com/ava-labs/hypersdk/internal/validitywindow"
 	"github.com/ava-labs/hypersdk/internal/validitywindow/validitywindowtest"
 	"github.com/ava-labs/hypersdk/internal/verifh"
 	"github.com/ava-labs/hypersdk/internal/verifx"
@@ -36,7 +38,9 @@ import (
 // in the block.
 //
 //   c07 <prices> <unitsR1> <unitsR2> <r2 = - | baseCompute,keyRead,keyAlloc,keyWrite> <maxBlockUnits>
-//       <sponsor> <balance|-> <maxfee> <tsoff> <scope> <actions>
+//       <sponsor> <balance|-> <maxfee> <tsoff> <scope> <actions> <dup 0|1> <authok 0|1>
+// dup=1: the validity window reports the tx as a repeat; authok=0: Auth.Verify fails. Such lines
+// exercise the rest of PreExecutor.PreExecute only (proc=na build=na).
 // One transaction OBJECT through the three real decision points, in the order of a node's life:
 //   adm   = PreExecutor.PreExecute (mempool admission) under the rules R1 in force now;
 //   then the rule factory switches to R2 (rules are a function of the timestamp: R1 before T, R2
@@ -160,8 +164,8 @@ func parseActs(ct *verifx.C03Tx, acts string) error {
 }
 
 // buildTx constructs a new transaction object (fresh caches) from its description.
-func buildTx(sponsor codec.Address, maxFee uint64, ts int64, scope, acts string, chainID ids.ID) (*chain.Transaction, error) {
-	ct := &verifx.C03Tx{Sponsor: sponsor, TS: ts, MaxFee: maxFee, AuthS: -1, AuthE: -1}
+func buildTx(sponsor codec.Address, maxFee uint64, ts int64, scope, acts string, chainID ids.ID, badAuth ...bool) (*chain.Transaction, error) {
+	ct := &verifx.C03Tx{Sponsor: sponsor, TS: ts, MaxFee: maxFee, AuthS: -1, AuthE: -1, BadAuth: len(badAuth) > 0 && badAuth[0]}
 	var err error
 	if ct.Scope, err = verifx.ParseScope(scope); err != nil {
 		return nil, err
@@ -202,6 +206,7 @@ func TestVerifC07(t *testing.T) {
 	if lines == nil {
 		rng := r.RNG
 		zero := fees.Dimensions{}
+		corpus := true
 		mkC07 := func(prices, maxU fees.Dimensions, r2, bal string, maxFee uint64, tsoff int64, scope, acts string) (string, fees.Dimensions) {
 			ra, _ := mkRules(prices, maxU, "-")
 			rb, err := mkRules(prices, maxU, r2)
@@ -210,8 +215,20 @@ func TestVerifC07(t *testing.T) {
 			}
 			u1 := unitsOf(sponsors[0], maxFee, tsoff, scope, acts, ra)
 			u2 := unitsOf(sponsors[0], maxFee, tsoff, scope, acts, rb)
-			return fmt.Sprintf("c07 %s %s %s %s %s %s %s %d %d %s %s", verifx.DimsString(prices), verifx.DimsString(u1), verifx.DimsString(u2), r2,
-				verifx.DimsString(maxU), sponsorHex, bal, maxFee, tsoff, scope, acts), u2
+			flags := "0 1"
+			switch rng.Intn(14) {
+			case 0:
+				flags = "1 1"
+			case 1:
+				flags = "0 0"
+			case 2:
+				flags = "1 0"
+			}
+			if corpus {
+				flags = "0 1"
+			}
+			return fmt.Sprintf("c07 %s %s %s %s %s %s %s %d %d %s %s %s", verifx.DimsString(prices), verifx.DimsString(u1), verifx.DimsString(u2), r2,
+				verifx.DimsString(maxU), sponsorHex, bal, maxFee, tsoff, scope, acts, flags), u2
 		}
 		hundred := fees.Dimensions{100, 100, 100, 100, 100}
 		// corpus: the shape of vm.TestSubmitTx/valid_tx — default minimum price 100, MaxFee 1000
@@ -244,6 +261,11 @@ func TestVerifC07(t *testing.T) {
 			}
 			return "-", "."
 		}
+		// zero fee + sponsor without a balance record: PreExecute passes, Execute errors, the
+		// builder aborts the whole build (C03 known finding; nothing is charged)
+		l, _ = mkC07(zero, defMax, "-", "-", 0, 30000, "-", ".")
+		lines = append(lines, l)
+		corpus = false
 		for i := 0; i < r.N(380, 6000); i++ {
 			prices := randPrices()
 			scope, acts := randActs()
@@ -452,7 +474,15 @@ func TestVerifC07(t *testing.T) {
 			b := chain.NewBuilder(trace.Noop, rf, &logging.NoLog{}, mm, bh, mp, vw, metrics, chain.NewDefaultConfig())
 			eb, out, err := b.BuildBlock(ctx, &block.Context{}, parent)
 			if err != nil {
-				r.Emit(l, "build-err:"+verifx.ClassErr(err))
+				// abort of the whole build: by the model only a zero-fee tx of a sponsor without a
+				// balance record causes it (C03 known finding); nothing is charged
+				r.Emit(l, "abort:"+verifx.ClassErr(err))
+				zeroFee := verifx.BigFee(prices, txs[0].units).Sign() == 0
+				if !zeroFee {
+					r.Violation("build-aborted", "Builder.BuildBlock returned %v", err)
+				} else {
+					r.Count("build-abort:zero-fee-absent-sponsor")
+				}
 				continue
 			}
 			resOf := map[ids.ID]*chain.Result{}
@@ -525,10 +555,11 @@ func TestVerifC07(t *testing.T) {
 		}
 
 		// =========================================================== c07
-		if len(f) != 12 || f[0] != "c07" || f[6] != sponsorHex {
+		if len(f) != 14 || f[0] != "c07" || f[6] != sponsorHex || (f[12] != "0" && f[12] != "1") || (f[13] != "0" && f[13] != "1") {
 			r.Emit(l, "bad-op")
 			continue
 		}
+		dup, authOk := f[12] == "1", f[13] == "1"
 		prices, e1 := verifx.ParseDims(f[1])
 		units1, e2 := verifx.ParseDims(f[2])
 		units2, e2b := verifx.ParseDims(f[3])
@@ -544,7 +575,7 @@ func TestVerifC07(t *testing.T) {
 		rules1, _ := mkRules(prices, maxU, "-")
 		rules2, e6 := mkRules(prices, maxU, f[4])
 		base := nowBase()
-		tx, e8 := buildTx(sponsors[0], maxFee, base+tsoff, f[10], f[11], chainID)
+		tx, e8 := buildTx(sponsors[0], maxFee, base+tsoff, f[10], f[11], chainID, !authOk)
 		if e1 != nil || e2 != nil || e2b != nil || e3 != nil || e4 != nil || e5 != nil || e6 != nil || e7 != nil || e8 != nil {
 			r.Emit(l, "bad-op")
 			continue
@@ -588,11 +619,26 @@ func TestVerifC07(t *testing.T) {
 
 		// ---- admission (rules R1: the switch time T is still in the future)
 		adm := "ok"
-		pe := chain.NewPreExecutor(rf, vw, mm, bh)
+		admVW := &validitywindowtest.MockTimeValidityWindow[*chain.Transaction]{}
+		if dup {
+			admVW.OnIsRepeat = func(context.Context, validitywindow.ExecutionBlock[*chain.Transaction], []*chain.Transaction, int64) (set.Bits, error) {
+				return set.NewBits(0), nil
+			}
+		}
+		pe := chain.NewPreExecutor(rf, admVW, mm, bh)
 		if err := pe.PreExecute(ctx, nil, c.newState(base, bals), tx); err != nil {
 			adm = "err:" + verifx.ClassErr(err)
 		} else if fee1.IsUint64() && fee1.Uint64() > maxFee {
 			viol("fee-exceeds-maxfee", "PreExecutor.PreExecute admitted a tx whose fee at the next block's prices is %s > Base.MaxFee=%d", fee1, maxFee)
+		}
+		if dup || !authOk {
+			if adm == "ok" {
+				viol("bad-tx-admitted", "PreExecutor.PreExecute admitted a tx with dup=%v authok=%v", dup, authOk)
+			}
+			r.Emit(l, fmt.Sprintf("adm=%s proc=na build=na", adm))
+			flush()
+			r.Count("adm:" + adm)
+			continue
 		}
 		// ---- the rules change: R2 from T on; everything below happens at timestamps >= T
 		T := time.Now().UnixMilli() + 1
@@ -627,7 +673,7 @@ func TestVerifC07(t *testing.T) {
 			proc = fmt.Sprintf("ok:%d", resA.Fee)
 			included("Processor.Execute", resA, pricesA, postA)
 		} else {
-			r.Count("proc-err:" + verifx.ClassErr(errA))
+			proc = "err:" + verifx.ClassErr(errA)
 		}
 		switch {
 		case (errA == nil) != (errB == nil):
@@ -655,7 +701,13 @@ func TestVerifC07(t *testing.T) {
 			}
 			switch {
 			case err != nil:
-				build = "err:" + verifx.ClassErr(err)
+				// BuildBlock returned an error: the whole build is aborted
+				build = "abort:" + verifx.ClassErr(err)
+				if _, has := bals[string(sks[0])]; !has && fee.Sign() == 0 {
+					r.Count("build-abort:zero-fee-absent-sponsor") // C03 known finding; nothing is charged
+				} else {
+					viol("build-aborted", "Builder.BuildBlock returned %v", err)
+				}
 			case len(eb.StatelessBlock.Txs) == 1:
 				res := out.ExecutionResults.Results[0]
 				build = fmt.Sprintf("inc:%d", res.Fee)
